@@ -1251,6 +1251,27 @@ func checkSlotFill(c *Ctx, rule string) {
 		}
 	}
 	if n == 0 {
+		// the table replaced as a whole instead of updated entry by entry
+		slotsF := p.Field(redisPkg, "upstream", "slots")
+		var whole *ssa.Store
+		if slotsF != nil {
+			for _, fn := range p.FuncsIn(redisPkg) {
+				if p.isTestFn(fn) {
+					continue
+				}
+				eachInstr(fn, func(_ *ssa.BasicBlock, _ int, in ssa.Instruction) {
+					if st, ok := in.(*ssa.Store); ok {
+						if f, base := fieldAddr(st.Addr); f == slotsF && !isFreshAlloc(base) {
+							whole = st
+						}
+					}
+				})
+			}
+		}
+		if whole != nil {
+			c.Fail(rule, "the routing table is updated slot by slot", whole.Pos(), "the routing table is replaced as a whole by what one CLUSTER NODES reply lists: a slot missing from that reply - a node with a partial view: just restarted, freshly added, partitioned - loses its known owner, and commands for it (writes included) go to a random seed host, possibly a replica or another shard, although the owning master is alive and was known")
+			return
+		}
 		c.Unresolved(rule, "no store into upstream.slots[s]")
 	}
 }
